@@ -135,6 +135,27 @@ func startsGoroutine(b *box) {
 	b.mu.Unlock()
 }
 
+// callback handed to a helper that calls it under the lock / outside the lock
+func withBoxLock(b *box, f func(*box)) {
+	b.mu.Lock()
+	f(b)
+	b.mu.Unlock()
+}
+
+func withBoxLockLate(b *box, f func(*box)) {
+	f(b)
+	b.mu.Lock()
+	b.mu.Unlock()
+}
+
+func callbackUnderLock(b *box) {
+	withBoxLock(b, func(x *box) { x.n = 7 })
+}
+
+func callbackOutsideLock(b *box) {
+	withBoxLockLate(b, func(x *box) { x.n = 8 })
+}
+
 // ---- nil-after-error field summary ----
 type holder struct{ p *int }
 
